@@ -623,6 +623,74 @@ def rule_conversion_follows_object(rep, repo, rule="R13"):
   return n
 
 
+def rule_per_channel_integer_bits(rep, repo, rule="R14"):
+  """A quantizer may hold its integer bits per channel (QAdaptiveActivation
+  keeps one entry per channel): whatever the converted operand type looks
+  like - one type per channel or one for all - every code of every channel
+  is a code of it: enough integer bits and enough fractional bits."""
+  from .. import quant
+  from ..pe import ConfigRejected, NArr, Mock
+  qf = repo.module(QF)
+  unit = "%s::QuantizerFactory.make_quantizer" % qf.relpath
+  loc = qf.loc(qf.classes["QuantizerFactory"].node)
+  n = 0
+  for cls, kw, ints in (
+      ("quantized_bits", dict(bits=8, integer=0, keep_negative=True),
+       (1, 3)),
+      ("quantized_bits", dict(bits=8, integer=0, keep_negative=True),
+       (3, 1)),
+      ("quantized_bits", dict(bits=8, integer=0, keep_negative=True),
+       (2, 2)),
+      ("quantized_relu", dict(bits=6, integer=0), (0, 2))):
+    for as_var in (False, True):
+      cfg = "%s(%s) with per-channel integer bits %s%s" % (
+          cls, ",".join("%s=%s" % kv for kv in sorted(kw.items())), list(ints),
+          " held in a variable" if as_var else "")
+      try:
+        b_ = quant.build(repo, cls, kw)
+        pe = b_.pe
+        pe.opaque_ext = True
+        held = NArr(list(ints))
+        if as_var:
+          held = Mock("variable", {"numpy": lambda pe_, a, k, v=held: v,
+                                   "shape": (len(ints),)})
+        pe.setattr(b_.obj, "integer", held)
+        fac = pe.call(pe.lookup_global("QuantizerFactory", qf), [], {})
+        t = pe.call(pe.getattr(fac, "make_quantizer"), [b_.obj], {})
+      except (PyRaise, Unsupported, ConfigRejected) as e:
+        rep.extra.setdefault("conversion_sequences_skipped", {})[cfg] = \
+            str(e)[:100]
+        continue
+      if not isinstance(t, Obj):
+        continue
+
+      def chan(v, c):
+        if isinstance(v, (list, tuple)):
+          return v[c] if len(v) > 1 else v[0]
+        return v
+      bad = []
+      for c, ib in enumerate(ints):
+        try:
+          bits = int(chan(t.attrs.get("bits"), c))
+          tib = int(chan(t.attrs.get("int_bits"), c))
+          sg = int(bool(chan(t.attrs.get("is_signed"), c)))
+        except (TypeError, ValueError):
+          bad.append("channel %d: type (%r, %r, %r) is not numeric" % (
+              c, t.attrs.get("bits"), t.attrs.get("int_bits"),
+              t.attrs.get("is_signed")))
+          continue
+        q_sg = 1 if cls == "quantized_bits" else 0
+        q_frac = kw["bits"] - q_sg - ib
+        if tib < ib or bits - sg - tib < q_frac or sg < q_sg:
+          bad.append("channel %d emits codes with %d integer and %d "
+                     "fractional bits, the operand type has %d and %d" % (
+                         c, ib, q_frac, tib, bits - sg - tib))
+      n += 1
+      rep.check(not bad, rule, unit, "per-channel-integer-bits-not-covered",
+                "%s: %s" % (cfg, "; ".join(bad)), loc=loc, instance=cfg)
+  return n
+
+
 def rule_float_products(rep, repo):
   """R12: floating-point operands.  The product type is floating point, as
   wide as the widest floating-point operand (a product of an fp32 and an
@@ -902,6 +970,9 @@ def run(rep, repo, tier):
   rule_float_products(rep, repo)
   if rule_conversion_follows_object(rep, repo) < 8:
     raise AnalysisError("instance-count conversion sequences: %r" %
+                        rep.extra.get("conversion_sequences_skipped"))
+  if rule_per_channel_integer_bits(rep, repo) < 6:
+    raise AnalysisError("instance-count per-channel integer bits: %r" %
                         rep.extra.get("conversion_sequences_skipped"))
   rule_history_independence(rep, repo)
   rep.require_instances("R12", 30)
